@@ -48,7 +48,11 @@ def add_container(d, name, entries, base="", crit_list=(), abstract=False, short
 # ------------------------------------------------------------------------------------------------ XML
 def xml_any_type(name, pt, od=False):
     if pt["kind"] in ("bin", "str"):
-        return strbin.xml_type(name, pt["sb"], od)
+        x = strbin.xml_type(name, pt["sb"], od)
+        if pt.get("unit"):
+            i = x.index(">") + 1
+            x = x[:i] + f'<UnitSet><Unit>{pt["unit"]}</Unit></UnitSet>' + x[i:]
+        return x
     return xrender.xml_type(name, pt, od)
 
 
